@@ -27,7 +27,8 @@ MANIFEST = {
              "one variable is compared but not judged."),
     "technique": "Lean 4 proof (per-variable characterisation of the NOTIFY loop) + generated ladder/type tables + model/implementation correspondence",
 }
-RULE = ("sequences of NOTIFY requests over 1..3 real services (variables of ALL 26 UPnP data types, with and without declared "
+RULE = ("sequences of NOTIFY requests over 1..3 real services (variables of ALL 26 UPnP data types, sendEvents yes / no / absent, "
+        "with and without declared "
         "ranges / allowed lists, names shared between services; accepted spellings incl. both offset signs, Z, space separator, "
         "+-HHMM / +-HH:MM, near-misses and out-of-range values): headers present/absent/wrong NT, NTS, SID routed / foreign / "
         "unrouted / missing; property sets of 0..7 children over 1..3 e:property elements plus foreign elements, namespaced and "
@@ -182,7 +183,7 @@ def rand_vars(rng, nsvc):
     for _ in range(nsvc):
         n = rng.randrange(1, 5)
         names = rng.sample(NAMES, n)
-        out.append([dict(rng.choice(VAR_KINDS), name=nm) for nm in names])
+        out.append([dict(rng.choice(VAR_KINDS), name=nm, send=rng.choice(["yes", "yes", "no", None])) for nm in names])
     return out
 
 
@@ -280,7 +281,7 @@ def rand_recipe(rng, n_notifies):
 
 
 V2 = [[{"name": "A", "type": "ui2", "min": 0, "max": 100}, {"name": "B", "type": "string", "allowed": ["x", "y"]},
-       {"name": "C", "type": "boolean"}, {"name": "D", "type": "i4"}, {"name": "T", "type": "dateTime"},
+       {"name": "C", "type": "boolean", "send": "no"}, {"name": "D", "type": "i4", "send": None}, {"name": "T", "type": "dateTime"},
        {"name": "Z", "type": "dateTime.tz"}, {"name": "W", "type": "time.tz"}, {"name": "F", "type": "r8", "min": "0.5", "max": "10"}],
       [{"name": "A", "type": "i4"}, {"name": "E", "type": "string"}]]
 
